@@ -472,6 +472,44 @@ def g_case(rng, max_src=4, max_sens=2, maxlen=3, one_class=False, mixed_shapes=F
     return {"sources": srcs, "sensors": sens}
 
 
+def g_dynamic_case(rng, cls, ragged, strong_first):
+    """sources of ONE class (one vectorised group, ragged or not) with field ratios of 1e6..1e12 at the
+    observers: a strong source close to a pixel together with weak, distant ones, in either order --
+    the weak source's element must still be ITS OWN field (no leakage through batch-level reductions)"""
+    zero = [[0.0, 0.0, 0.0]]
+    if cls == "Polyline":
+        n_s = rng.choice([3, 4, 5])
+        loop = [[0, 0, 0], [0.1, 0, 0], [0.1, 0.1, 0], [0, 0.1, 0], [0, 0, 0]][:n_s]
+        strong = {"cls": cls, "args": {"cur": rng.choice([-1, 1]) * 10.0 ** rng.randint(3, 5), "verts": loop}, "pos": zero, "rot": zero}
+        near = [0.05, rng.choice([1e-3, 2e-3, 1e-2]), rng.choice([0.0, 2e-3])]
+        weak = []
+        for _ in range(rng.randint(1, 2)):
+            n_w = rng.choice([k for k in (2, 3, 4, 6) if k != n_s]) if ragged else n_s
+            base = [rng.choice([-2.5, 2.0, 3.0]), rng.uniform(-1, 1), rng.uniform(-1, 1)]
+            verts = [[round(base[i] + rng.uniform(-0.5, 0.5), 3) for i in range(3)] for _ in range(n_w)]
+            weak.append({"cls": cls, "args": {"cur": rng.choice([-1, 1]) * 10.0 ** (-rng.randint(2, 4)), "verts": verts},
+                         "pos": [rvec(rng, -0.2, 0.2) for _ in range(rng.choice([1, 1, 2]))], "rot": zero})
+        for w in weak:
+            w["rot"] = zero * len(w["pos"])
+    else:   # TriangularMesh: different face counts are the ragged case
+        def mesh(n, sc, off, pol):
+            pts = [[-0.5, -0.5, -0.5], [0.5, -0.5, -0.5], [0, 0.5, -0.5], [0, 0, 0.6]] + [rvec(rng, -0.8, 0.8) for _ in range(n - 4)]
+            return {"cls": cls, "args": {"pol": pol, "points": [[round(sc * q[i] + off[i], 4) for i in range(3)] for q in pts]},
+                    "pos": zero, "rot": zero}
+        n_s = rng.choice([4, 5, 6])
+        big = 10.0 ** rng.randint(2, 4)
+        strong = mesh(n_s, 0.2, [0.0, 0.0, 0.0], [round(big * x, 3) for x in g_pol(rng)])
+        near = [0.0, 0.0, rng.choice([0.0, 0.13, 0.2])]      # inside / just above the strong body
+        weak = []
+        for _ in range(rng.randint(1, 2)):
+            n_w = rng.choice([k for k in (4, 5, 6, 8) if k != n_s]) if ragged else n_s
+            weak.append(mesh(n_w, 0.5, [rng.choice([-3.0, 3.0]), rng.uniform(-1, 1), rng.uniform(-1, 1)],
+                             [x * 10.0 ** (-rng.randint(4, 6)) for x in g_pol(rng)]))
+    srcs = [strong] + weak if strong_first else weak + [strong]
+    pix = [near, rvec(rng, 0.3, 0.6)]
+    return {"sources": srcs, "sensors": [{"pos": zero, "rot": zero, "pixel": pix, "left": False}]}
+
+
 SPECIAL_CLASSES = ["CylinderSegment", "Cylinder", "Cuboid", "Sphere", "Circle", "Polyline", "Triangle"]
 
 
